@@ -983,6 +983,15 @@ func (fv *FuncVerifier) frameObligations(s2 *State, site token.Pos) {
 				isContent = true
 				tgt = tgt[len("content(") : len(tgt)-1]
 			}
+			if strings.HasPrefix(tgt, "abs(") && strings.HasSuffix(tgt, ")") {
+				ref, t := fv.evalPathIn(fv.fn, fv.entry, tgt[len("abs("):len(tgt)-1], fv.entryParams)
+				if k := absKey(t); k != "" && ref.Sort == SRef {
+					targets = append(targets, target{k, ref})
+				} else {
+					fv.bindErrors = append(fv.bindErrors, cl.Pos+": assigns target "+tgt+" is not a path to a /repo interface value")
+				}
+				continue
+			}
 			parts := strings.Split(tgt, ".")
 			if len(parts) == 1 && !isContent {
 				paramTargets[parts[0]] = true
